@@ -152,6 +152,11 @@ def keyLt : List Nat → List Nat → Bool
   | _ :: _, [] => false
   | a :: as, b :: bs => if a < b then true else if b < a then false else keyLt as bs
 
+/-! #### order of the council members (`Committee.GetAllMembersCopy`) -/
+
+/-- `Uint168.Compare` is "less": the bytes are compared from the last one down -/
+def didLt (a b : List Nat) : Bool := keyLt a.reverse b.reverse
+
 /-- the `less` function of getSortedProducers: more votes first, ties by smaller node key -/
 def before (p q : Producer) : Bool :=
   if p.votes == q.votes then keyLt p.key q.key else decide (p.votes > q.votes)
